@@ -5,6 +5,7 @@ import (
 	"errors"
 	"fmt"
 	"os"
+	"sync"
 	"time"
 
 	"github.com/bvinc/go-sqlite-lite/sqlite3"
@@ -39,6 +40,9 @@ type sqlWriter struct {
 	leafPruneCh chan *pruneSignal
 	leafCh      chan *saveSignal
 	leafResult  chan *saveResult
+
+	// done is released by the two writer loops when they have ended
+	done sync.WaitGroup
 }
 
 func (sql *SqliteDb) newSQLWriter() *sqlWriter {
@@ -58,7 +62,9 @@ func (sql *SqliteDb) newSQLWriter() *sqlWriter {
 }
 
 func (w *sqlWriter) start(ctx context.Context) {
+	w.done.Add(2)
 	go func() {
+		defer w.done.Done()
 		err := w.treeLoop(ctx)
 		if err != nil {
 			w.logger.Error("tree loop failed", "error", err)
@@ -66,6 +72,7 @@ func (w *sqlWriter) start(ctx context.Context) {
 		}
 	}()
 	go func() {
+		defer w.done.Done()
 		err := w.leafLoop(ctx)
 		if err != nil {
 			w.logger.Error("leaf loop failed", "error", err)
@@ -238,7 +245,11 @@ func (w *sqlWriter) leafLoop(ctx context.Context) error {
 				checkpoints = sig.checkpoints
 				nextPruneVersion = sig.pruneVersion
 			case <-ctx.Done():
-				return nil
+				// the batch of the unfinished prune is committed like every
+				// batch before it: whatever was saved meanwhile on this
+				// connection is part of its transaction, and its statements
+				// must be finalized for the connection to close
+				return commitPrune()
 			default:
 				if !verifPruneGate(w, "leaf") {
 					continue
@@ -429,7 +440,11 @@ func (w *sqlWriter) treeLoop(ctx context.Context) error {
 				checkpoints = sig.checkpoints
 				nextPruneVersion = sig.pruneVersion
 			case <-ctx.Done():
-				return nil
+				// the batch of the unfinished prune is committed like every
+				// batch before it: a root saved meanwhile on this connection is
+				// part of its transaction, and its statements must be finalized
+				// for the connection to close
+				return commitPrune()
 			default:
 				// continue pruning if no signal
 				if !verifPruneGate(w, "tree") {
